@@ -813,6 +813,13 @@ func (d *Downloader) fetchHeaders(p *peerConnection, from, height, firstNoneAc u
 			if skeleton {
 				shs := make([]*SkeletonHeader, len(headers))
 				for i, h := range headers {
+					// The skeleton comes unverified from the master peer: make sure it has
+					// exactly the requested spacing before sizing any buffers from it.
+					want := from + uint64(i+1)*uint64(MaxHeaderFetch) - 1
+					if len(headers) > int(MaxSkeletonSize) || h.Number == nil || !h.Number.IsUint64() || h.Number.Uint64() != want {
+						p.log.Debug("Skeleton header broke the requested spacing", "index", i, "number", h.Number, "expected", want)
+						return errInvalidChain
+					}
 					shs[i] = &SkeletonHeader{h.Number.Uint64(), h.Hash()}
 				}
 				filled, proced, err := d.fillHeaderSkeleton(from, shs, false)
